@@ -314,6 +314,8 @@ def prop_failures_rs(f, flags, spec, out):
             return fails  # default min for max_value == 0 is not specified
     if hi is None:
         hi = -min_pos if lo < 0 else fmax
+    if lo > hi:
+        return fails  # precondition min <= max
     zero_sign = (lo == 0 and np.signbit(lo) and hi > 0) or (hi == 0 and not np.signbit(hi) and lo < 0)
     if not sub_ok:
         if lo != 0 and abs(lo) < tiny:
@@ -353,6 +355,8 @@ def prop_failures_rs(f, flags, spec, out):
             bad.append(("contains-bounds", ("lower " if miss_lo else "") + ("upper" if miss_hi else "")))
         if straddle and flags["zero"] and not (r == 0).any():
             bad.append(("contains-zero", ""))
+        if straddle and not flags["zero"] and not (miss_lo or miss_hi) and (r == 0).any():
+            bad.append(("zero-not-requested", ""))
         if not sub_ok and ((body != 0) & (abs(body) < tiny)).any():
             bad.append(("no-subnormal", ""))
         w = body.astype(np.float64) if f.bits < 64 else body
